@@ -153,6 +153,9 @@ func (w *Writer) WriteHeader() error {
 	if err0 != nil {
 		return err0
 	}
+	if !w.writer.HasRoom(4) { // all 4 parts or nothing
+		return errors.New("off write queue is full, header not written")
+	}
 	if _, err := w.writer.Write(s); err != nil {
 		return err
 	}
@@ -174,6 +177,9 @@ func (w *Writer) WriteRecord(recordSamples int32, recordPreSamples int32, framec
 	timestamp int64, pretriggerMean float32, pretriggerDelta float32, residualStdDev float32, data []float32) error {
 	if len(data) != w.NumberOfBases {
 		return fmt.Errorf("wrong number of bases, have %v, want %v", len(data), w.NumberOfBases)
+	}
+	if !w.writer.HasRoom(8) { // all 8 parts or nothing: never leave a partial record in the file
+		return errors.New("off write queue is full, record not written")
 	}
 	if _, err := w.writer.Write(getbytes.FromInt32(int32(recordSamples))); err != nil {
 		return err
